@@ -310,6 +310,8 @@ def cmdClient : P String := do
   -- further calls were sent between the receives: no effect on what the receives return (the model's `receive`
   -- depends on the reply stream and the reader state only)
   let pipelined ← bool
+  -- an earlier Send on this connection failed with nothing written: no effect on what this Send writes
+  let prefail ← bool
   expect "|"
   let sendClass ← tok
   let written ← bytes
@@ -327,7 +329,7 @@ def cmdClient : P String := do
   | some pl =>
     let res := send method pl f
     let forbidden := (f.more && f.oneway) || (f.more && f.upgrade)
-    let feats0 := s!"nt={if cutInside then 1 else 0} flags={flagsN} forbidden={forbidden} ptok={ptok} frames={frames.length} segs={segs.length} tail={!tail.isEmpty} pipelined={pipelined}"
+    let feats0 := s!"nt={if cutInside then 1 else 0} flags={flagsN} forbidden={forbidden} ptok={ptok} frames={frames.length} segs={segs.length} tail={!tail.isEmpty} pipelined={pipelined} prefail={prefail}"
     -- the property on the observation itself: forbidden combinations write nothing
     if sendClass == "panic" then return s!"DIFF C11 send-panic {feats0}"
     if forbidden && !written.isEmpty then return s!"DIFF C11 forbidden-flags-but-bytes-written {feats0}"
